@@ -17,8 +17,8 @@ PID = "C50"
 LEVEL = "proof"
 LEAN = ["SaVerif.Props.C50"]
 META = {
-    "text": "Lean theorems for ALL operation sequences: the OrderingList invariant (duplicate-free, position == ordering_func(index) for every element) is preserved by every guarded operation of the transcribed class incl. the collection decorators' slice decomposition (append/insert/remove/pop/__setitem__/__delitem__/slices/extend/clear/reorder; induction over the reorder loop and the slice loops); reorder() restores it from any duplicate-free state; each excluded case (negative __setitem__ index, sort/reverse, append of an element that already has a position) has a counterexample theorem replayed on the real code. Association proxies: each operation of the transcribed _AssociationSet/_AssociationDict/_AssociationList refines the plain set/dict/list operation on the proxied values, never duplicates a value's intermediary, and keeps the identity of untouched intermediaries. Tied to the code by per-operation correspondence and by an oracle comparing with plain Python collections and with the reloaded database rows.",
-    "note": "Hand-transcribed models tied by differential runs only. Python's own list/set/dict semantics enter as inputs (normalised slice indices, removed index sets, sort results) or as small trusted definitions (index normalisation, list.insert clamping) that the oracle re-validates against CPython. List-proxy slice operations, pickling of proxies and scalar proxies are covered by the oracle only. Guards that correspond to real behaviour are reported as known findings: OrderingList.__setitem__ with a negative index stores ordering_func(negative index); sort()/reverse() do not renumber (documented reorder()); append keeps an existing position unless reorder_on_append; _AssociationList slice assignment does not normalise bounds; proxy *= negative is a no-op; _AssociationDict.pop(missing, default) applies the getter to the default.",
+    "text": "Lean theorems for ALL operation sequences: the OrderingList invariant (duplicate-free, position == ordering_func(index) for every element) is preserved by every guarded operation of the transcribed class incl. the collection decorators' slice decomposition (append/insert/remove/pop/__setitem__/__delitem__/slices/extend/clear/reorder; induction over the reorder loop and the slice loops); reorder() restores it from any duplicate-free state; each excluded case (sort/reverse, append of an element that already has a position) has a counterexample theorem replayed on the real code. Association proxies: each operation of the transcribed _AssociationSet/_AssociationDict/_AssociationList refines the plain set/dict/list operation on the proxied values, never duplicates a value's intermediary, and keeps the identity of untouched intermediaries. Tied to the code by per-operation correspondence and by an oracle comparing with plain Python collections and with the reloaded database rows.",
+    "note": "Hand-transcribed models tied by differential runs only. Python's own list/set/dict semantics enter as inputs (normalised slice indices, removed index sets, sort results) or as small trusted definitions (index normalisation, list.insert clamping) that the oracle re-validates against CPython. List-proxy slice operations, pickling of proxies and scalar proxies are covered by the oracle only. Guards that correspond to real (documented) behaviour are reported as known findings: sort()/reverse() do not renumber (reorder() required); append keeps an existing position unless reorder_on_append. Fixed in the tree and now covered by the full theorems / oracle: negative __setitem__ index on OrderingList, _AssociationList slice bounds and *= negative, _AssociationDict.pop(missing, default).",
     "technique": "Lean 4 invariant/refinement proofs over transcribed collection classes + per-operation differential correspondence with the real ORM on SQLite + plain-collection oracle",
     "design_ref": "DESIGN.md §3 C50",
 }
@@ -202,8 +202,6 @@ class OLRunner:
         elif k == "set":
             if not fresh(op["e"]):
                 return "duplicate-entity"
-            if op["i"] < 0:
-                return "setitem-negative-index"
         elif k in ("ext", "iadd"):
             if len(set(op["es"])) != len(op["es"]) or not all(fresh(e) for e in op["es"]):
                 return "duplicate-entity"
@@ -358,10 +356,7 @@ def ol_gen_op(rng, R, stale):
         if c == "pop":
             return {"op": "pop", "i": idx() if rng.random() < 0.6 else -1}
         if c == "set" and fresh:
-            i = idx()
-            if i < 0 and not stale:
-                i = rng.randint(0, n)
-            return {"op": "set", "i": i, "e": rng.choice(fresh)}
+            return {"op": "set", "i": idx(), "e": rng.choice(fresh)}
         if c == "del":
             return {"op": "del", "i": idx()}
         if c == "dls":
@@ -516,13 +511,9 @@ class PXRunner:
                 mop, call = "clr", lambda c: c.clear()
             elif k == "mul":
                 mop, call = "mul:%d" % op["n"], lambda c: c.__imul__(op["n"])
-                if op["n"] < 0:
-                    self.edge_reason = self.edge_reason or "proxy-list:imul-negative"
             elif k == "sls":  # oracle only
                 sl = slice(*op["sl"])
                 call = lambda c: c.__setitem__(sl, list(op["vs"]))  # noqa: E731
-                if not slice_in_range(op["sl"], n):
-                    self.edge_reason = self.edge_reason or "proxy-list:slice-bounds-not-normalised"
             elif k == "dls":
                 sl = slice(*op["sl"])
                 call = lambda c: c.__delitem__(sl)  # noqa: E731
@@ -566,8 +557,6 @@ class PXRunner:
                 mop, call = "pop:%d:0" % op["k"], lambda c: c.pop(op["k"])
             elif k == "popd":
                 mop, call = "pop:%d:%d" % (op["k"], 1 if op["d"] is None else 2), lambda c: c.pop(op["k"], op["d"])
-                if op["k"] not in sh and op["d"] is not None:
-                    self.edge_reason = self.edge_reason or "proxy-dict:pop-default-on-missing-key"
             elif k == "sdf":
                 mop, call = "sdf:%d:%d" % (op["k"], op["v"]), lambda c: c.setdefault(op["k"], op["v"])
             elif k == "upd":
@@ -691,13 +680,8 @@ def px_gen_op(rng, R, edge):
         if c == "clr":
             return {"op": "clr"} if rng.random() < 0.3 else {"op": "app", "v": val()}
         if c == "mul":
-            return {"op": "mul", "n": rng.choice([0, 1, 2, 3] + ([-1, -2] if edge else []))}
-        if edge:
-            sl = rand_slice(rng, n)
-        else:
-            a = rng.choice([None, rng.randint(0, n)])
-            b = rng.choice([None, rng.randint(a or 0, n)])
-            sl = [a, b, rng.choice([None, 1, 1, 2])]
+            return {"op": "mul", "n": rng.choice([0, 1, 2, 3, -1, -2])}
+        sl = rand_slice(rng, n)
         if c == "sls":
             rs = len(range(*slice(*sl).indices(n)))
             k = rs if ((sl[2] or 1) != 1 and rng.random() < 0.8) else rng.randint(0, 3)
@@ -720,7 +704,7 @@ def px_gen_op(rng, R, edge):
         return {"op": c, "k": key()}
     if c == "popd":
         k = key()
-        d = None if (k not in sh and not edge) else rng.choice([None, 7])
+        d = rng.choice([None, 7])
         return {"op": "popd", "k": k, "d": d}
     if c == "sdf":
         return {"op": "sdf", "k": key(), "v": val()}
@@ -767,10 +751,8 @@ def px_key(R):
 
 # ---------------------------------------------------------------------------------------
 WITNESSES = {
-    "setitem_negative_counterexample": {"part": "ol", "start": 0, "roa": False, "ops": [{"op": "ext", "es": [0, 1, 2]}, {"op": "set", "i": -1, "e": 3}]},
     "reverse_counterexample": {"part": "ol", "start": 0, "roa": False, "ops": [{"op": "ext", "es": [0, 1, 2]}, {"op": "rev"}]},
     "append_stale_counterexample": {"part": "ol", "start": 0, "roa": False, "ops": [{"op": "ext", "es": [0, 1, 2]}, {"op": "rem", "e": 0}, {"op": "app", "e": 0}]},
-    "imul_negative_counterexample": {"part": "px", "kind": "list", "ops": [{"op": "ext", "vs": [1, 2]}, {"op": "mul", "n": -1}]},
 }
 
 
@@ -805,9 +787,8 @@ def run(ctx, deep=False):
     ctx.rule = (
         "operation sequences (3..%d ops) on (a) an ordering_list relationship with count_from in {0,1,5}, reorder_on_append on/off, 9 candidate "
         "elements: append/insert/remove/pop/__setitem__/__delitem__ (ints, out-of-range, slices incl. extended and negative)/extend/+=/clear/"
-        "reorder/commit+reload; stale stream adds sort/reverse/negative __setitem__/append of positioned elements; (b) list/set/dict association "
-        "proxies: every mutator with members / non-members / failing arguments, slices on the list proxy, edge stream with out-of-range slices, "
-        "*= negative, pop(missing, default); non-trivial = at least 2 operations" % (24 if thorough else 14)
+        "reorder/commit+reload; stale stream adds sort/reverse/append of positioned elements; (b) list/set/dict association "
+        "proxies: every mutator with members / non-members / failing arguments, slices on the list proxy (any bounds / steps), *= negative, pop(missing, default); non-trivial = at least 2 operations" % (24 if thorough else 14)
     )
     ctx.trusted.append("Python list/set/dict semantics: normalised slice indices, removed index sets and sort results are inputs of the model; the oracle compares every result with CPython's own collections")
     ctx.trusted.append("SQLite in-memory is the only backend executed (persistence of order / association rows)")
